@@ -294,3 +294,199 @@ Proof.
   intros Hle Hf. unfold observe. unfold raw_run in Hf. rewrite (eval_fuel_mono n m _ _ _ _ _ _ Hle Hf). reflexivity.
 Qed.
 End Mono.
+
+(* ------------------------------------------------------------------------------------------ *)
+(* generator laws *)
+
+Definition meq {A} (a b : M A) : Prop := forall s, a s = b s.
+
+Section Laws.
+Variable bs : list funcdef.
+
+(* comma: the outputs of the left operand, then those of the right one (same input, same path state) *)
+Lemma comma_law n rho l r v ps k :
+  eval_q bs (S n) rho (q_bin l OpComma r) v ps k = (eval_q bs n rho l v ps k ;; eval_q bs n rho r v ps k).
+Proof. reflexivity. Qed.
+
+(* pipe: nesting of continuations *)
+Lemma pipe_law n rho l r v ps k :
+  eval_q bs (S n) rho (q_bin l OpPipe r) v ps k = eval_q bs n rho l v ps (fun x ps' => eval_q bs n rho r x ps' k).
+Proof. reflexivity. Qed.
+
+Definition q_empty : query := q_call (codes "empty") [].
+Definition not_redefined (rho : env) (name : string) (arity : nat) : Prop :=
+  lookup_fun rho (codes name) arity = None /\ lookup_builtin bs (codes name) arity = None.
+
+Lemma empty_law n rho v ps k : not_redefined rho "empty" 0 ->
+  eval_q bs (S (S (S n))) rho q_empty v ps k = (tick ;; ret tt).
+Proof.
+  intros [H1 H2]. unfold eval_q, q_empty, q_call, q_term.
+  cbn [evals_n step ev_q step_eval_q push_defs fold_left ev_t step_eval_t rev app ev_call].
+  unfold step_call. cbn [List.length]. 
+  replace (is_var_name (codes "empty") && Nat.eqb 0 0) with false by reflexivity.
+  rewrite H1, H2. reflexivity.
+Qed.
+
+Lemma empty_unit_left n rho r v ps k : not_redefined rho "empty" 0 ->
+  meq (eval_q bs (S (S (S (S n)))) rho (q_bin q_empty OpComma r) v ps k)
+      (tick ;; eval_q bs (S (S (S n))) rho r v ps k).
+Proof.
+  intros H s. rewrite comma_law, (empty_law n rho v ps k H). unfold bind, tick, ret.
+  destruct (steps s); reflexivity.
+Qed.
+
+Lemma empty_unit_right n rho l v ps k : not_redefined rho "empty" 0 ->
+  meq (eval_q bs (S (S (S (S n)))) rho (q_bin l OpComma q_empty) v ps k)
+      (eval_q bs (S (S (S n))) rho l v ps k ;; tick).
+Proof.
+  intros H s. rewrite comma_law, (empty_law n rho v ps k H). unfold bind, tick, ret.
+  destruct (eval_q bs (S (S (S n))) rho l v ps k s) as [[[]|e] s1]; [|reflexivity].
+  destruct (steps s1); reflexivity.
+Qed.
+
+(* try never intercepts what its CONSUMER raises: a try around a computation whose errors all come
+   from the continuation (wrapped by [down]) is transparent *)
+Lemma try_down_id (m : M unit) handler : meq (try_catch (down m) handler) m.
+Proof.
+  intros s. unfold try_catch, down. destruct (m s) as [[[]|e] s1]; [reflexivity|].
+  destruct e; reflexivity.
+Qed.
+
+(* ... so `try b catch h` around a body that emits exactly one value and cannot fail itself is the
+   same as b, whatever the consumer does with the value (in particular when the consumer errors) *)
+Lemma try_transparent n rho body h v ps k x px :
+  (forall k', eval_q bs n rho body v ps k' = k' x px) ->
+  meq (eval_t bs (S n) rho (Term (TTry body h) []) v ps k) (k x px).
+Proof.
+  intros Hb s. unfold eval_t, eval_q in *. cbn [evals_n step ev_t step_eval_t rev]. rewrite Hb.
+  apply try_down_id.
+Qed.
+
+(* ... while an error raised by the body itself is caught and handed to the handler *)
+Lemma try_catches_body n rho body h v ps k c e :
+  (forall k', meq (eval_q bs n rho body v ps k') (raise (XErr O c (Some e)))) ->
+  meq (eval_t bs (S n) rho (Term (TTry body (Some h)) []) v ps k) (eval_q bs n rho h (plain e) ps k).
+Proof.
+  intros Hb s. unfold eval_t, eval_q in *. cbn [evals_n step ev_t step_eval_t rev].
+  unfold try_catch. rewrite Hb. reflexivity.
+Qed.
+
+Lemma list_N_eqb_refl l : list_N_eqb l l = true.
+Proof. induction l; cbn; [reflexivity|]. rewrite N.eqb_refl. exact IHl. Qed.
+
+Definition q_lit (t : bytes) (c : num) : query := q_term (TNumber t c).
+Definition q_break (x : bytes) : query := q_term (TBreak x).
+
+(* label $x | (c, break $x, B)  emits c and stops: B is never evaluated *)
+Lemma label_break_law n rho x t c B v ps k :
+  meq (eval_q bs (S (S (S (S (S (S n)))))) rho
+         (q_term (TLabel x (q_bin (q_lit t c) OpComma (q_bin (q_break x) OpComma B)))) v ps k)
+      (l <- fresh ;; catch_break l (k (plain (VNum c)) ps ;; raise (XBreak l))).
+Proof.
+  intros s. unfold eval_q, q_lit, q_break, q_term, q_bin.
+  cbn [evals_n step ev_q step_eval_q push_defs fold_left ev_t step_eval_t rev app lookup_label].
+  rewrite list_N_eqb_refl. unfold bind, fresh, catch_break, raise.
+  destruct (k (plain (VNum c)) ps _) as [[[]|e] s1]; reflexivity.
+Qed.
+
+(* reduce / foreach: the defining unfoldings *)
+Lemma reduce_unfold n rho src pat start upd v ps k :
+  eval_t bs (S n) rho (Term (TReduce src pat start upd) []) v ps k =
+  eval_q bs n rho start v ps (fun s0 ps0 =>
+    c <- new_cell s0 ;;
+    eval_q bs n rho src v ps0 (fun item ps1 =>
+      ev_bindpat (evals_n bs n) rho pat item ps1 (fun rho' ps2 =>
+        cur <- get_cell c ;; eval_q bs n rho' upd cur ps2 (fun u _ => set_cell c u))) ;;
+    res <- get_cell c ;; free_cell c ;; k res ps0).
+Proof. reflexivity. Qed.
+
+Lemma foreach_unfold n rho src pat start upd ext v ps k :
+  eval_t bs (S n) rho (Term (TForeach src pat start upd ext) []) v ps k =
+  eval_q bs n rho start v ps (fun s0 ps0 =>
+    c <- new_cell s0 ;;
+    eval_q bs n rho src v ps0 (fun item ps1 =>
+      ev_bindpat (evals_n bs n) rho pat item ps1 (fun rho' ps2 =>
+        cur <- get_cell c ;;
+        eval_q bs n rho' upd cur ps2 (fun u ps3 =>
+          set_cell c u ;;
+          match ext with
+          | None => k u ps3
+          | Some e => eval_q bs n rho' e u ps3 k
+          end))) ;;
+    free_cell c).
+Proof. reflexivity. Qed.
+
+(* first(f) as builtin.jq defines it *)
+Definition first_def : funcdef :=
+  FuncDef (codes "first") [codes "g"]
+    (q_term (TLabel (codes "$out")
+       (q_bin (q_call (codes "g") []) OpPipe (q_bin q_identity OpComma (q_term (TBreak (codes "$out"))))))).
+
+(* first((c, g)) emits c and never evaluates g: no error, no divergence of g can show *)
+Lemma first_law n rho t c g v ps k :
+  lookup_fun rho (codes "first") 1 = None ->
+  lookup_builtin bs (codes "first") 1 = Some first_def ->
+  meq (eval_q bs (12 + n) rho (q_call (codes "first") [q_bin (q_lit t c) OpComma g]) v ps k)
+      (tick ;; l <- fresh ;; catch_break l (tick ;; (k (plain (VNum c)) ps ;; raise (XBreak l)))).
+Proof.
+  intros H1 H2 s. unfold eval_q, q_call, q_lit, q_term, q_bin.
+  cbn [evals_n step ev_q step_eval_q push_defs fold_left ev_t step_eval_t rev app ev_call Nat.add].
+  unfold step_call at 1. cbn [List.length].
+  replace (is_var_name (codes "first") && Nat.eqb 1 0) with false by reflexivity.
+  rewrite H1, H2. unfold first_def, q_call, q_identity, q_term, q_bin.
+  cbn [combine fold_left cps_fold fst snd].
+  replace (is_var_name (codes "g")) with false by reflexivity.
+  cbn [evals_n step ev_q step_eval_q push_defs fold_left ev_t step_eval_t rev app ev_call lookup_label].
+  unfold step_call at 1. cbn [List.length].
+  replace (is_var_name (codes "g") && Nat.eqb 0 0) with false by reflexivity.
+  cbn [lookup_fun]. 
+  replace (Nat.eqb 0 0 && list_N_eqb (strip_dollar (codes "g")) (codes "g")) with true by reflexivity.
+  cbn [evals_n step ev_q step_eval_q push_defs fold_left ev_t step_eval_t rev app ev_call lookup_label].
+  replace (list_N_eqb (codes "$out") (codes "$out")) with true by reflexivity.
+  unfold bind, tick, fresh, catch_break, raise.
+  destruct (steps s); [reflexivity|]. cbn [steps outs nout cap nextid inputs cells repsens].
+  destruct (N.pred (N.pos p)); [reflexivity|]. cbn [steps outs nout cap nextid inputs cells repsens].
+  destruct (k (plain (VNum c)) ps _) as [[[]|e] s1]; reflexivity.
+Qed.
+
+(* path(.a | .b) = path(.a) followed by path(.b): the paths concatenate *)
+Definition q_field (a : bytes) : query := q_term (TIndex (Index a None None None false)).
+
+Lemma path_field_law n rho c a v w kp :
+  fn_index2 v (VStr (c :: a)) = NOk w ->
+  meq (eval_path bs (5 + n) rho (q_field (c :: a)) (plain v) kp)
+      (_ <- fresh ;; _ <- fresh ;; kp [VStr (c :: a)]).
+Proof.
+  intros H1 s. unfold eval_path, q_field, q_term.
+  cbn [evals_n step ev_path step_eval_path ev_q step_eval_q push_defs fold_left ev_t step_eval_t rev app
+       ev_index step_eval_index index_key Nat.add fst snd plain].
+  unfold step_eval_path.
+  cbn [evals_n step ev_path step_eval_path ev_q step_eval_q push_defs fold_left ev_t step_eval_t rev app
+       ev_index step_eval_index index_key Nat.add fst snd plain].
+  unfold step_eval_index. cbn [index_key ev_t step_eval_t rev app].
+  unfold bind, fresh. cbn [nextid outs nout cap inputs cells repsens steps fst snd].
+  rewrite H1. cbn [lift]. unfold nav, check_intact, intact, bind, fresh.
+  cbn [nextid outs nout cap inputs cells repsens steps fst snd lid rpath lv rev app].
+  rewrite !N.eqb_refl. reflexivity.
+Qed.
+
+Lemma path_pipe_fields_law n rho c a d b v w1 w2 kp :
+  fn_index2 v (VStr (c :: a)) = NOk w1 -> fn_index2 w1 (VStr (d :: b)) = NOk w2 ->
+  meq (eval_path bs (6 + n) rho (q_bin (q_field (c :: a)) OpPipe (q_field (d :: b))) (plain v) kp)
+      (_ <- fresh ;; _ <- fresh ;; _ <- fresh ;; kp [VStr (c :: a); VStr (d :: b)]).
+Proof.
+  intros H1 H2 s. unfold eval_path, q_field, q_term, q_bin.
+  cbn [evals_n step ev_path step_eval_path ev_q step_eval_q push_defs fold_left ev_t step_eval_t rev app
+       ev_index step_eval_index index_key Nat.add fst snd plain].
+  unfold step_eval_path.
+  cbn [evals_n step ev_path step_eval_path ev_q step_eval_q push_defs fold_left ev_t step_eval_t rev app
+       ev_index step_eval_index index_key Nat.add fst snd plain].
+  unfold step_eval_index. cbn [index_key ev_t step_eval_t rev app].
+  unfold bind, fresh. cbn [nextid outs nout cap inputs cells repsens steps fst snd].
+  rewrite H1. cbn [lift]. unfold nav, check_intact, intact, bind, fresh.
+  cbn [nextid outs nout cap inputs cells repsens steps fst snd lid rpath lv rev app].
+  rewrite !N.eqb_refl. rewrite H2. cbn [lift].
+  cbn [nextid outs nout cap inputs cells repsens steps fst snd lid rpath lv rev app].
+  rewrite !N.eqb_refl. reflexivity.
+Qed.
+End Laws.
